@@ -1076,7 +1076,12 @@ func (g *gen) idiom(d int, top bool) []stmtText {
 	e := func() string { return g.w(g.expr(kAny, d-1), pAssign) }
 	c := func() string { return g.condTest(d - 1).s }
 	cp := func() string { return g.w(g.condTest(d-1), pBitOr) }
-	switch r.Intn(31) {
+	switch r.Intn(33) {
+	case 31, 32: // (x, E) op y as a statement: the parentheses are unwrapped and E becomes the left operand of op (K119)
+		last := r.Pick("!("+c()+"&&"+c()+")", "!("+c()+"||"+c()+")", "!("+cp()+"=="+cp()+")", c()+"?"+e()+":"+e(), "true", "!("+c()+"&&"+c()+")")
+		op := r.Pick("&&", "&&", "||", "&&")
+		g.kindHit("idiom:comma-group-left-operand")
+		return one("("+h()+"(1),"+last+")"+op+h()+"(2)", true)
 	case 29, 30: // a captured variable used at every level of a closure chain, locals declared at the bottom (renamer: link chain)
 		x := g.fresh("v")
 		g.declare(&variable{name: x, k: kNum, decl: "var"})
